@@ -5,11 +5,16 @@ Tie: every model operation is run on the inputs given to the real functions of
 scales.Scale, PrimitiveEquationsSpecs.*timedelta64, the xarray_utils time helpers and
 radiation (float64) and compared; pint's unit table (conversion factor and dimension vector of
 every atom) is an input of the model and its multiplicativity is checked on every compound unit.
+Offset units (degC, degF, degRe) are affine units of the model (conversion factor, offset, dimension
+vector): Scale.nondimensionalize / dimensionalize and Quantity.to on them are compared with
+nondimAff / dimensionalizeAff / convertAff, and the round trips / unit independence are probed on
+the real code with tolerances scaled to the Kelvin magnitude.
 Sentinel probes evaluate the property itself on the real code; the hypotheses of the rounding
 model used by T18.3/T18.4 are validated with exact rational arithmetic.
 """
 import datetime
 import dataclasses
+import os
 from fractions import Fraction
 
 import numpy as np
@@ -36,7 +41,10 @@ RULE = ('scales: DEFAULT/ATMOSPHERIC and random scales (1-7 base dimensions, mag
         'pint units with exponents -3..3, magnitudes +-1e-12..1e12, python floats/ints, numpy and jax arrays (jax arrays only '
         'where no integer conversion factor of pint reaches 2^63, which jax rejects with OverflowError); '
         'malformed stream: compound / squared / dimensionless / duplicate scales and quantities with an '
-        'uncovered dimension; durations: every whole second 0..1e5 (quick) / stratified to 1e9 (thorough) '
+        'uncovered dimension; affine units: kelvin, degC, degF, degRe (and degR, offset 0) x DEFAULT/ATMOSPHERIC/'
+        'Scale(3 mile, pi week, 2 lb, 32 K)/random scales with a temperature, temperatures from absolute zero to 1e4 '
+        'incl. 0, -40, +-1e-9 and wide magnitudes to 1e8, python floats/ints, numpy and jax arrays (compound units '
+        'built from an offset unit raise in pint and are outside the domain); durations: every whole second 0..1e5 (quick) / stratified to 1e9 (thorough) '
         'under the default and random time scales, scalar and array path; datetimes: every minute of a '
         'multi-year window plus random stamps over +-60 years in datetime64[m|s|ms|us|ns]; orbital phases: '
         'times over +-1e6 model units incl. 0, tiny negative and whole years; a case is non-trivial when the '
@@ -93,8 +101,12 @@ def run(ctx: common.Ctx):
       '|d| <= 2^-53 (no overflow/underflow), and is exact when the exact result is an integer below 2^53; '
       'validated on sampled operations with exact rationals, and the model is executed with the rounding '
       'function fl53 (proved to satisfy this model) and compared bit for bit with the doubles of the code')
-  ctx.assumptions.append('pint is external: its unit table (factor to base units, dimension vector) is an '
-                         'input of the model; multiplicativity of the table is checked on every compound unit')
+  ctx.assumptions.append('pint is external: its unit table (factor to base units, dimension vector; for offset units factor '
+                         'and offset of the OffsetConverter) is an input of the model; multiplicativity of the table is checked '
+                         'on every compound unit, the affine table against to_base_units and against the unit definitions')
+  ctx.assumptions.append('T18.1/T18.2 (multiplicative and affine units) assume ScaleOK (every base scale given to Scale() is '
+                         'non-zero; the code does not check this) and a non-zero conversion factor of the unit; compound units '
+                         'built from an offset unit (units.degC / units.m) are outside the domain (the code raises)')
 
   rng = ctx.rng
   lines, checks = [], []   # checks: (op, inp, impl, kind)
@@ -328,6 +340,191 @@ def run(ctx: common.Ctx):
     ctx.notes.append(f'excluded domain: {len(jax_overflow)} quantities held in a jax array whose (compound) unit has an '
                      f'integer conversion factor >= 2^63 in pint (e.g. {jax_overflow[0]}): jax raises OverflowError on '
                      'array * int inside pint; the same values held by numpy convert correctly and were used instead')
+
+  # ------------------------------------------------------------------ affine (offset) units: degC, degF
+  # The registry is created with autoconvert_offset_to_baseunit=True, so Quantity(25, degC) is an admissible
+  # argument of nondimensionalize and degC an admissible unit of dimensionalize, which is then an *affine*
+  # function of the value.  Model: AffUnit (conv, off, dim), nondimAff / dimensionalizeAff / convertAff.
+  # The model part is skipped (never the probes of the real code) while the Lean tree in use predates it.
+  with open(os.path.join(common.LEAN, 'Dino', 'Units.lean')) as fh:
+    has_affine_model = 'def nondimAff' in fh.read()
+  ctx.dist[f'affine: model ops {"present" if has_affine_model else "ABSENT in this Lean tree (correspondence of affine ops skipped)"}'] += 1
+  if not has_affine_model:
+    ctx.notes.append('the Lean tree in use has no affine-unit model (Dino/Units.lean lacks nondimAff): the affine '
+                     'operations were probed on the real code only')
+  TEMP_DIM = dimvec(units.kelvin.dimensionality)
+  aff = {}      # name -> (unit, conv, off): value_base = value * conv + off  (pint's OffsetConverter)
+  for name in ['kelvin', 'degree_Celsius', 'degree_Fahrenheit', 'degree_Reaumur', 'degree_Rankine']:
+    cv = units._units[name].converter    # pylint: disable=protected-access
+    aff[name] = (units.Unit(name), float(cv.scale), float(getattr(cv, 'offset', 0.0)))
+  # the table read from the converters is what the public API uses (to_base_units of 0 and 1), and it is what
+  # the definitions of the units say (independent constants)
+  for name, (un, cv_, of_) in aff.items():
+    b0 = float(units.Quantity(0.0, un).to_base_units().m)
+    b1 = float(units.Quantity(1.0, un).to_base_units().m)
+    ctx.expect(b0 == of_ and abs((b1 - b0) - cv_) <= 1e-13, 'affine-pint-table',
+               'converter scale/offset are not what to_base_units applies', dict(unit=name, conv=cv_, off=of_, b0=b0, b1=b1))
+  exact_tab = {'kelvin': (Fraction(1), Fraction(0)), 'degree_Celsius': (Fraction(1), Fraction(27315, 100)),
+               'degree_Fahrenheit': (Fraction(5, 9), Fraction(23315, 100) + Fraction(200, 9)),
+               'degree_Reaumur': (Fraction(5, 4), Fraction(27315, 100)), 'degree_Rankine': (Fraction(5, 9), Fraction(0))}
+  for name, (cq, oq) in exact_tab.items():
+    ctx.expect(abs(Fraction(aff[name][1]) - cq) <= cq * U53 * 2 and abs(Fraction(aff[name][2]) - oq) <= oq * U53 * 2,
+               'affine-pint-table', 'pint table differs from the definition of the unit', dict(unit=name))
+
+  def aff_token(name):
+    _, cv_, of_ = aff[name]
+    return f'{fbits(cv_)}:{fbits(of_)}:{ivec(TEMP_DIM)}'
+
+  def within(a, b, tol):
+    a = np.asarray(a, dtype=float)
+    b = np.asarray(b, dtype=float)
+    tol = np.broadcast_to(np.asarray(tol, dtype=float), a.shape) if a.shape == b.shape else tol
+    return a.shape == b.shape and bool(np.isfinite(a).all() and np.isfinite(b).all() and (np.abs(a - b) <= tol).all())
+
+  custom_scale = scales.Scale(3 * units.mile, np.pi * units.week, 2 * units.lb, 32 * units.degK)
+  aff_scales = [(scales.DEFAULT_SCALE, 'default'), (scales.ATMOSPHERIC_SCALE, 'atmospheric'), (custom_scale, 'custom-32K')]
+  for _ in range(ctx.n(12, 100)):
+    aff_scales.append(random_scale(str(rng.choice(['full4', 'wide']))))
+  AFF_NAMES = list(aff)
+  ART = 1e-12     # probes: a few ulps of the Kelvin magnitude; the seeded / realistic defects are >= 1e-3 K
+  CRT = 1e-9      # correspondence, as everywhere else, relative to the Kelvin magnitude of the operation
+
+  def temps(name, kind):
+    """magnitudes of temperatures in the unit `name` (base values from absolute zero to 1e4 K, plus a few wide ones)"""
+    _, cv_, of_ = aff[name]
+    def val(shape=()):
+      k = np.where(rng.random(size=shape) < 0.8, rng.uniform(0.0, 1e4, size=shape),
+                   rng.choice([-1.0, 1.0], size=shape) * 10.0 ** rng.uniform(-6, 8, size=shape))
+      return (k - of_) / cv_
+    special = np.array([0.0, -40.0, 25.0, 36.6, 1e-9, -1e-9, -of_ / cv_, 100.0, 77.0])
+    if kind == 'float':
+      return float(rng.choice(special)) if rng.random() < 0.4 else float(val())
+    if kind == 'int':
+      return int(rng.integers(-200, 2000))
+    if kind == 'np1':
+      return np.concatenate([rng.choice(special, 2), val((3,))])
+    if kind == 'np2':
+      return val((2, 3))
+    return jnp.asarray(np.concatenate([rng.choice(special, 2), val((3,))]))
+
+  naff = 0
+  for scale, skind in aff_scales:
+    sv = scale_vals(scale)
+    st = scale_token(sv)
+    Ts = float(scale['[temperature]'].m)
+    for name in AFF_NAMES:
+      un, cv_, of_ = aff[name]
+      for mkind in (['float', 'int', 'np1', 'np2', 'jnp'] if skind in ('default', 'atmospheric', 'custom-32K')
+                    else [str(rng.choice(['float', 'int', 'np1', 'np2', 'jnp']))]):
+        mag = temps(name, mkind)
+        flat = np.asarray(mag, dtype=float).ravel()
+        kel = flat * cv_ + of_                       # oracle: value in kelvin
+        inp = dict(scale=sv, scale_kind=skind, unit=name, conv=cv_, off=of_, magnitude=flat.tolist(), magkind=mkind)
+        ctx.dist[f'affine:unit={name}'] += 1
+        ctx.dist[f'affine:mag={mkind}'] += 1
+        ctx.case(('aff', tuple(x if x is not None else -1 for x in sv), name, flat.tobytes()),
+                 nontrivial=of_ != 0.0, sample=inp if naff % 40 == 0 else None)
+        naff += 1
+        kscale = np.abs(kel) + abs(of_)              # Kelvin magnitude of the operations (per element)
+        with ctx.impl('affine-exception', inp):
+          q = units.Quantity(mag, un)
+          nd = scale.nondimensionalize(q)
+          nd_flat = np.asarray(nd, dtype=float).ravel()
+          # independent oracle: the quantity in kelvin divided by the temperature scale
+          ctx.expect(within(nd_flat, kel / Ts, ART * kscale / Ts), 'affine-oracle',
+                     'nondimensionalize(Quantity(m, unit)) != (m * conv + off) / temperature scale', inp)
+          back = scale.dimensionalize(nd, un)
+          ctx.expect(back.units == un, 'dimensionalize-unit', 'dimensionalize returned another unit', inp)
+          ctx.expect(within(np.asarray(back.m, dtype=float).ravel(), flat, ART * kscale / abs(cv_)), 'affine-roundtrip',
+                     f'dimensionalize(nondimensionalize(q), {name}) != q', dict(inp, got=np.asarray(back.m, dtype=float).ravel().tolist()))
+          # a non-dimensional value -> unit -> back
+          y = nd if rng.random() < 0.5 else (np.asarray(rng.uniform(0.0, 1e4, size=np.shape(mag))) / Ts
+                                             if mkind != 'jnp' else jnp.asarray(rng.uniform(0.0, 1e4, size=np.shape(mag)) / Ts))
+          if mkind in ('float', 'int'):
+            y = float(y)
+          y_flat = np.asarray(y, dtype=float).ravel()
+          ykel = np.abs(y_flat * Ts) + abs(of_)
+          dm = scale.dimensionalize(y, un)
+          dm_flat = np.asarray(dm.m, dtype=float).ravel()
+          i2 = dict(inp, value=y_flat.tolist())
+          ctx.expect(within(dm_flat, (y_flat * Ts - of_) / cv_, ART * ykel / abs(cv_)), 'affine-oracle',
+                     'dimensionalize(y, unit) != (y * temperature scale - off) / conv', dict(i2, got=dm_flat.tolist()))
+          ctx.expect(within(np.asarray(scale.nondimensionalize(dm), dtype=float).ravel(), y_flat, ART * ykel / Ts),
+                     'affine-roundtrip-inverse', f'nondimensionalize(dimensionalize(y, {name})) != y', i2)
+          # unit independence, both directions, against every other affine unit of the table
+          for name2 in AFF_NAMES:
+            if name2 == name:
+              continue
+            un2, cv2, of2 = aff[name2]
+            i3 = dict(inp, other_unit=name2)
+            q2 = q.to(un2)
+            ctx.expect(within(np.asarray(scale.nondimensionalize(q2), dtype=float).ravel(), nd_flat,
+                              ART * (kscale + abs(of2)) / Ts), 'affine-unit-independence',
+                       'nondimensional value depends on the unit the temperature is expressed in', i3)
+            ctx.expect(within(np.asarray(scale.dimensionalize(nd, un2).m, dtype=float).ravel(),
+                              np.asarray(q2.m, dtype=float).ravel(), ART * (kscale + abs(of2)) / abs(cv2)),
+                       'affine-roundtrip-other-unit', f'{name} -> nondim -> {name2} != q.to({name2})', i3)
+            ctx.expect(within(np.asarray(dm.to(un2).m, dtype=float).ravel(),
+                              np.asarray(scale.dimensionalize(y, un2).m, dtype=float).ravel(),
+                              ART * (ykel + abs(of2)) / abs(cv2)), 'affine-dimensionalize-unit-independence',
+                       f'dimensionalize(y, {name}).to({name2}) != dimensionalize(y, {name2})', dict(i3, value=y_flat.tolist()))
+          if has_affine_model:
+            ut = aff_token(name)
+            add(f'units F anondim {st} {ut} {fvec(flat)}', 'Scale.nondimensionalize[affine]', inp,
+                (nd_flat, CRT * kscale.max() / Ts), 'avec')
+            add(f'units F adim {st} {ut} {fvec(y_flat)}', 'Scale.dimensionalize[affine]', i2,
+                (dm_flat, CRT * ykel.max() / abs(cv_)), 'avec')
+            name2 = str(rng.choice([n for n in AFF_NAMES if n != name]))
+            un2, cv2, of2 = aff[name2]
+            add(f'units F aconv {ut} {aff_token(name2)} {fvec(flat)}', 'Quantity.to[affine]', dict(inp, other_unit=name2),
+                (np.asarray(q.to(un2).m, dtype=float).ravel(), CRT * (kscale.max() + abs(of2)) / abs(cv2)), 'avec')
+  # a scale without a temperature: both directions raise the documented ValueError on an affine unit as well
+  no_temp = scales.Scale(scales.RADIUS, 1 / 2 / scales.OMEGA)
+  for name in ['degree_Celsius', 'degree_Fahrenheit']:
+    un = aff[name][0]
+    i4 = dict(scale=scale_vals(no_temp), unit=name)
+    r1 = guarded(lambda: scale_token([float(no_temp.nondimensionalize(units.Quantity(25.0, un)))]), 'affine-exception', i4)
+    r2 = guarded(lambda: scale_token([float(no_temp.dimensionalize(1.0, un).m)]), 'affine-exception', i4)
+    ctx.expect(r1 == 'value-error' and r2 == 'value-error', 'scale-error-consistency',
+               'a scale without a temperature does not raise ValueError on an offset unit', dict(i4, got=[r1, r2]))
+    if has_affine_model:
+      stn = scale_token(scale_vals(no_temp))
+      add(f'units F anondim {stn} {aff_token(name)} {fvec([25.0])}', 'Scale.nondimensionalize[affine, uncovered]', i4, r1, 'avec')
+      add(f'units F adim {stn} {aff_token(name)} {fvec([1.0])}', 'Scale.dimensionalize[affine, uncovered]', i4, r2, 'avec')
+  # the same through PrimitiveEquationsSpecs.from_si()
+  specs_si = pe.PrimitiveEquationsSpecs.from_si()
+  for name in ['degree_Celsius', 'degree_Fahrenheit']:
+    un, cv_, of_ = aff[name]
+    for mag in [15.0, 0.0, np.array([-40.0, 0.0, 25.0, 36.6]), jnp.asarray([-40.0, 1e-9, 25.0, 36.6])]:
+      flat = np.asarray(mag, dtype=float).ravel()
+      inp = dict(via='PrimitiveEquationsSpecs.from_si', unit=name, magnitude=flat.tolist())
+      ctx.case(('aff-specs', name, flat.tobytes()), nontrivial=True)
+      with ctx.impl('affine-exception', inp):
+        ynd = specs_si.nondimensionalize(units.Quantity(mag, un))
+        tolk = ART * (np.abs(flat * cv_ + of_) + abs(of_))
+        Tsi = float(specs_si.scale['[temperature]'].m)
+        ctx.expect(within(np.asarray(ynd, dtype=float).ravel(), (flat * cv_ + of_) / Tsi, tolk / Tsi), 'affine-oracle',
+                   'specs.nondimensionalize(Quantity(m, unit)) != (m * conv + off) / temperature scale', inp)
+        ctx.expect(within(np.asarray(specs_si.dimensionalize(ynd, un).m, dtype=float).ravel(), flat, tolk / abs(cv_)),
+                   'affine-roundtrip', f'specs: {name} -> nondim -> {name} != q', inp)
+        ctx.expect(within(np.asarray(specs_si.dimensionalize(ynd, units.kelvin).m, dtype=float).ravel(), flat * cv_ + of_, tolk),
+                   'affine-roundtrip-other-unit', f'specs: {name} -> nondim -> kelvin != q.to(kelvin)', inp)
+        ctx.expect(within(np.asarray(specs_si.dimensionalize(ynd, un).to(units.kelvin).m, dtype=float).ravel(),
+                          np.asarray(specs_si.dimensionalize(ynd, units.kelvin).m, dtype=float).ravel(), tolk),
+                   'affine-dimensionalize-unit-independence', f'specs: dimensionalize(y, {name}).to(K) != dimensionalize(y, K)', inp)
+  # outside the domain: a compound unit built from an offset unit (units.degC / units.m) — recorded, not judged
+  for mk, label in [(lambda: units.degC / units.meter, 'degC / m'), (lambda: units.degC ** 2, 'degC ** 2')]:
+    res = []
+    for fn in (lambda: scales.DEFAULT_SCALE.nondimensionalize(units.Quantity(2.0, mk())),
+               lambda: scales.DEFAULT_SCALE.dimensionalize(2.0, mk())):
+      try:
+        res.append(f'returns {fn()!r}')
+      except Exception as e:  # pylint: disable=broad-except
+        res.append(f'raises {type(e).__name__}')
+    ctx.dist[f'excluded: compound unit with an offset unit ({label}): nondimensionalize {res[0]}, dimensionalize {res[1]}'] += 1
+  ctx.notes.append('excluded domain: compound units built from an offset unit (units.degC / units.m, units.degC ** 2); '
+                   "see the distribution for what the code does on them; pint's parser turns the string 'degC/m' into the "
+                   'multiplicative delta_degC / m, which is covered by the multiplicative model')
 
   # ------------------------------------------------------------------ Scale.__init__ validation stream
   nval = ctx.n(60, 600)
@@ -737,6 +934,10 @@ def run(ctx: common.Ctx):
       ctx.corr_float(op, inp, impl, unfvec(o), atol=0.0)
     elif kind == 'pair':
       ctx.corr_float(op, inp, impl, [unfbits(t) for t in o.split(' ')], atol=0.0)
+    elif kind == 'avec':
+      # affine operation: the result can be a small difference of Kelvin-sized numbers, so the tolerance is
+      # absolute, relative to the Kelvin magnitude of the operation (computed where the line was built)
+      ctx.corr_float(op, inp, impl[0], unfvec(o), rtol=0.0, atol=float(impl[1]))
     elif kind == 'ivec':
       ctx.corr_exact(op, inp, list(impl), univec(o))
     elif kind == 'phase':
@@ -778,9 +979,22 @@ def run(ctx: common.Ctx):
   q2 = ctx.model(['units Q td -,7539163657268239/1099511627776 0,1 27,28,-5,0'])[0]
   ctx.corr_exact('model-rat-timedelta', dict(line='td'), q2.split(' ')[2:], ['27,28,-5,0'] * 3)
 
+  if has_affine_model:
+    # the witnesses of the Lean file on the executable model in exact arithmetic: 25 degC = 298.15 K = 77 degF under a
+    # temperature scale of 32 K; the linearised variant (seeded change C18-1) returns -28759549/12800 degC
+    sq, cq_, fq_ = '-,3,-,2,-,-,32', '1:5463/20:0,0,0,0,0,0,1', '5/9:45967/180:0,0,0,0,0,0,1'
+    qa = ctx.model([f'units Q anondim {sq} {cq_} 25,0', f'units Q anondim {sq} {fq_} 77', f'units Q adim {sq} {cq_} 5963/640',
+                    f'units Q adim {sq} {fq_} 5963/640', f'units Q aconv {cq_} {fq_} 25,-40', f'units Q alin {sq} {cq_} 5963/640'])
+    ctx.corr_exact('model-rat-affine', dict(line='anondim/adim/aconv/alin'), qa,
+                   ['5963/640,5463/640', '5963/640', '25', '77', '77,-40', '-28759549/12800'])
   if not ctx.quick:
     ctx.leanchecker(['DinoProofs.Properties.C18'])
   return ctx.finish(RULE, 'theorems are about the Lean model Dino.Units; pint is external (its unit table is an input); '
-                    'T18.3/T18.4 hold under the relative-error model of double arithmetic stated as a hypothesis; '
-                    'in floating point a tiny negative phase argument is reduced to fl(2pi), so the range check on the '
-                    'implementation is [0, 2pi] (closed), the theorem over the reals is [0, 2pi)')
+                    'the inverse / unit-independence theorems need ScaleOK (all base scales non-zero, not checked by the code) '
+                    'and a non-zero conversion factor, for multiplicative and for affine (degC, degF) units; '
+                    'T18.3/T18.4 hold under the relative-error model of double arithmetic stated as a hypothesis (no overflow, '
+                    'no underflow); the orbital phase bound [0, 2pi) is proved over the reals only: in floating point a tiny '
+                    'negative phase argument is reduced to fl(2pi) and the phase can leave [0, 2pi] by 2 eps (|x| + 2pi), so '
+                    'the range check on the implementation is that widened closed interval; the correspondence is bit-exact '
+                    'for the timedelta operations only, integer results are compared exactly, every other float result with '
+                    'relative tolerance 1e-9 (affine units: 1e-9 of the Kelvin magnitude)')
